@@ -10,8 +10,10 @@ PY = "/venv/bin/python"
 CHECKS = {
     "C01": (
         "model_checking",
-        "explicit-state BFS over real CountMinLinear objects (all add/add_ngram/merge/save+load "
-        "histories to a depth bound over a probed colliding alphabet) against a reference model",
+        "explicit-state BFS over real CountMinLinear objects (all add/add_ngram/merge incl. self-merge/"
+        "save+load histories to a depth bound over a probed colliding alphabet, in memory and in shared "
+        "memory) against a reference model, plus an exhaustive sweep of boundary multiplicities x entry "
+        "points x integer types on one-key sketches",
         "All histories up to the stated depth of add / add_ngram / merge / save+load events on 2-4 real "
         "sketches of widths 1-4 over a 3-key alphabet chosen by probing for shared counters, with "
         "multiplicities adjacent to and beyond 2^32-1; in every reached state every key's estimate is "
@@ -62,7 +64,9 @@ CHECKS = {
     "C05": (
         "model_checking",
         "edge predicate on every add transition of BFS state graphs of real linear/log8/log16 "
-        "count-min sketches; log add events enumerate the environment's draw vectors",
+        "count-min sketches; log add events enumerate the environment's draw vectors; plus exhaustive "
+        "sweeps of bulk adds (every start value of the reserved range; boundary multiplicities x entry "
+        "points x integer types)",
         "Every add transition reachable within the depth bound (from merged and saturated states too) "
         "is checked pre/post: the key's estimate, every other key's estimate, the table diff (<= 1 "
         "counter per row, only the key's cells) and n_added. For log sketches the random draws are "
@@ -253,7 +257,8 @@ CHECKS = {
         "model_checking",
         "explicit-state BFS near the ceilings of real linear / log8 / log16 / heavy-hitter sketches "
         "with a monotonicity + absorbing-ceiling edge predicate, plus complete enumeration of the "
-        "(max_count x num_reserved) constructor grid",
+        "(max_count x num_reserved) constructor grid (incl. the family whose Newton start sits at the "
+        "stationary point) and bulk adds far beyond max_count",
         "Histories whose multiplicities land within +-3 of the ceiling and beyond (linear, heavy "
         "hitters), all-advance draws reaching counter 255 (log8), start states written 0-3 below "
         "65535 (log16), merges included: on every transition no estimate is lowered, a key at its "
